@@ -11,8 +11,7 @@ pub fn one(ctx: &mut Ctx, rl: usize, src: &str) {
             if p.text == src && !p.boundaries_ok { ctx.fail("range-not-on-char-boundary", src, "a node or token range splits a UTF-8 sequence"); }
             if p.text != src {
                 // classify: was a token swallowed by the type parser?
-                let ty_err = p.msgs.iter().any(|(_, m)| m == "expected a type" || m == "expected item type");
-                let key = if ty_err && p.text.len() < src.len() { "cst-drops-token-in-type-position" } else { "cst-not-lossless" };
+                let key = if p.loss == Loss::TypePositionDropOnly { "cst-drops-token-in-type-position" } else { "cst-not-lossless" };
                 ctx.fail(key, src, &format!("tree text {:?}", p.text));
                 ctx.stat("lossy");
             } else { ctx.stat("lossless"); }
@@ -30,6 +29,26 @@ pub fn run(ctx: &mut Ctx) {
     let mut seqs = vec![];
     token_seqs(&TOKENS, if ctx.thorough { 4 } else { 3 }, |s| seqs.push(s.to_string()));
     for (i, s) in seqs.iter().enumerate() { one(ctx, [500usize, 0, 1, 2][i % 4], s); }
+    // recursion limit reached inside every nesting construct (the tree must stay lossless when the parser gives up):
+    // depth d of each construct × recursion limit rl, small values exhaustively and around the default limit
+    let nests: [(&str, &str, &str, &str, &str); 12] = [
+        ("type A { a: ", "[", "Int", "]", " }"), ("type A { a(x: ", "[", "Int!", "]!", "): Int }"), ("query($v: ", "[", "Int", "]", " = 1) { a }"),
+        ("input I { x: ", "[", "I", "]", " = null }"), ("directive @d(x: ", "[", "Int", "]", ") on FIELD"),
+        ("{ a(x: ", "[", "1", "]", ") }"), ("{ a(x: ", "{k: ", "1", "}", ") }"), ("query($v: Int = ", "[", "$w", "]", ") { a }"),
+        ("", "{ a ", "b", " }", ""), ("{ ", "... { ", "a", " }", " }"), ("{ ", "... on T { a ", "b", " c }", " }"), ("fragment F on T ", "{ a @d(x: [", "1", "]) }", ""),
+    ];
+    let mut nest_cases = 0u64;
+    for (pre, open, mid, close, post) in nests {
+        for d in 0..=7usize { for rl in 0..=6usize {
+            one(ctx, rl, &format!("{pre}{}{mid}{}{post}", open.repeat(d), close.repeat(d)));
+            // unbalanced: the closing part is missing or too long
+            if d > 0 { one(ctx, rl, &format!("{pre}{}{mid}{}{post}", open.repeat(d), close.repeat(d - 1))); }
+            one(ctx, rl, &format!("{pre}{}{mid}{} é{post}", open.repeat(d), close.repeat(d + 1)));
+            nest_cases += 3;
+        } }
+        for d in [498usize, 499, 500, 501, 502, 600] { one(ctx, 500, &format!("{pre}{}{mid}{}{post}", open.repeat(d), close.repeat(d))); nest_cases += 1; }
+    }
+    ctx.stat_n("nesting_x_recursion_limit_cases", nest_cases);
     // lexical errors and multibyte text at every grammar position
     let n = if ctx.thorough { 80_000 } else { 8_000 };
     let mut cov = std::collections::BTreeMap::new();
@@ -45,7 +64,8 @@ pub fn run(ctx: &mut Ctx) {
                 src = pcs[..at].concat() + ins + &pcs[at..].concat();
             }
         }
-        one(ctx, 500, &src);
+        let rl = if i % 3 == 1 { ctx.rng.below(7) } else { 500 };
+        one(ctx, rl, &src);
     }
     for s in repo_documents() { one(ctx, 500, &s); }
 }
